@@ -41,6 +41,9 @@ CHECKS = {
  "C07": dict(engine="simrt+simnet+modelredis", cat="exploration", ref="DESIGN.md 5/C07",
    text="Seeded search over RDB contents x filters x target.db x key_exists x 1-8 parallel workers x per-connection latency x worker interleavings, through the real full-sync phase and restore mode (real file); the target dataset is compared key by key with the reference decoding; injected error replies must never be hidden behind a signalled completion.",
    tech="deterministic simulation: scheduled worker pool against a target model with injected error replies; reference decoder and filter predicate as oracle"),
+ "C16": dict(engine="simrt+simnet+modelredis", cat="exploration", ref="DESIGN.md 5/C16",
+   text="Seeded search over source keyspaces, adversarial SCAN paginations, keys vanishing between SCAN/DUMP/PTTL, batch sizes, big-key thresholds, filters, target.db, QoS rates and key-file scans, through the real rump pipeline (fetcher/writer/receiver) between a source and a target model; surviving keys must arrive with value and remaining TTL, vanished ones must be skipped, the run must end.",
+   tech="deterministic simulation: scan adversary + key mutator in the source model, scheduled three-stage pipeline, reference decoder as oracle"),
  "C18": dict(engine="simrt", cat="exploration", ref="DESIGN.md 5/C18",
    text="Seeded search over writer/reader/closer scripts and lock-granularity interleavings of the real backlog ring against an absolute-offset log model (interval semantics for in-flight writes), with lost-wake-up analysis at quiescence.",
    tech="deterministic simulation: tape-driven baton scheduler over instrumented locks/conds + absolute-offset log model"),
